@@ -14,7 +14,7 @@ from pgv.charlib import optq, q, qlist, quiet_logging, tv_run
 from pgv.core import import_pygaps
 from pgv.models import logu, relerr
 
-R = 8.314462618
+R = 6.02214076e23 * 1.380649e-23      # exact SI value (N_A k_B)
 NA = 6.02214076e23
 
 
